@@ -136,12 +136,12 @@ class SpectralFrameConverter(FrameConverter):
 
     def from_yaml_tree(self, node, tag, ctx):
         from ..coordinate_frames import SpectralFrame
-        node = self._from_yaml_tree(node, tag, ctx)
+        kwargs = self._from_yaml_tree(node, tag, ctx)
 
         if 'reference_position' in node:
-            node['reference_position'] = node['reference_position'].upper()
+            kwargs['reference_position'] = node['reference_position'].upper()
 
-        return SpectralFrame(**node)
+        return SpectralFrame(**kwargs)
 
     def to_yaml_tree(self, frame, tag, ctx):
         node = self._to_yaml_tree(frame, tag, ctx)
